@@ -153,8 +153,8 @@ def gen_and_small(tier):
                         continue
                     if tier == "quick" and sizes == [1, 1, 1] and (len(x[0]) + len(y[1]) + len(z[0])) % 2:
                         continue        # quick: fiber by fiber on every other triple only
-                    if tier != "quick" and len(sizes) == 2 and (len(x[0]) + len(y[1]) + len(z[0]) + sizes[0]) % 2:
-                        continue        # thorough (262144 triples): each mixed grouping on half of them
+                    if tier != "quick" and len(sizes) == 2 and (len(x[0]) + 2 * len(y[1]) + len(z[0]) + sizes[0]) % 4:
+                        continue        # thorough (262144 triples): each mixed grouping on a quarter of them
                     yield and_case("and", [x, y, z], sizes, 2 if len(sizes) == 2 else 1)
     # calls that receive nothing: before the first intersection (as when the traces are handed
     # over at the top of every outer iteration), between two intersections, after the last one
@@ -164,7 +164,8 @@ def gen_and_small(tier):
                 yield and_case("and", [(leaf(a), leaf(b))], sizes, 1)
     for x in p2:
         for y in p2:
-            for sizes in ([0, 1, 1], [1, 0, 1, 0]):
+            for sizes in (([0, 1, 1], [1, 0, 1, 0]) if tier == "quick" else
+                          ([[0, 1, 1], [1, 0, 1, 0]][(len(x[0]) + len(y[1])) % 2],)):
                 yield and_case("and", [x, y], sizes, 1)
     for i, x in enumerate(p2):
         for y in p2[i % 3:: 3]:
@@ -257,6 +258,25 @@ def gen_and_widened(tier, s2, p2):
             if (i + j) % 4 == 0:
                 yield and_case("and", [x, y, x], [3], 1, windows=[None, [0, hi, "iterRange"], None])
                 yield and_case("lf", [x, y], [1, 1], 1, windows=[[0, hi, "iterRange"], None])
+    # operand identity: the very same Fiber object on both sides (a & a: the diagonal pair of a
+    # row-against-row loop), the same object twice among the operands of an n-ary intersection,
+    # a fiber against a lazy view of itself; more fibers follow
+    s4 = list(subsets(4))
+    for i, x in enumerate(s4):
+        y = s4[(5 * i + 3) % len(s4)]
+        for sizes in ([1, 1], [2], [0, 1, 1]):
+            yield and_case("and", [(leaf(x), leaf(x)), (leaf(x), leaf(y))], sizes, 1, variant=["shared-objects"])
+            yield and_case("and", [(leaf(y), leaf(x)), (leaf(y), leaf(y))], sizes, 1, variant=["shared-objects"])
+        yield and_case("lf", [(leaf(x), leaf(x)), (leaf(y), leaf(x))], [1, 1], 1, variant=["shared-objects"])
+        yield and_case("and", [(leaf(x), leaf(x))] * 2, [2], 1, variant=["shared-objects", "intersection-two-finger"])
+    for x in sub:
+        for y in sub:
+            for var in (["shared-objects"], ["shared-objects", "nary"]):
+                yield and_case("and", [(lazy_operand("and", x, y), leaf(x)), (leaf(y), leaf(x))], [2], 1, variant=var)
+            yield and_case("and", [(leaf(x), lazy_operand("sub", x, y)), (leaf(x), lazy_operand("and", x, x))],
+                           [1, 1], 1, variant=["shared-objects"])
+            yield and_case("and", [(lazy_operand("and", y, x), lazy_operand("and", x, y))], [0, 1], 1,
+                           variant=["shared-objects"])
     # value kinds, multi-digit / negative coordinates, three outer ranks
     for i, x in enumerate(p2):
         y = p2[(7 * i + 3) % len(p2)]
@@ -327,7 +347,11 @@ def gen_and_random(rng, count):
             variant.append("coords-multidigit")
         if kind == "and" and rng.random() < 0.15:
             variant.append(rng.choice(["prebuilt", "intersection-two-finger"]))
-        if rng.random() < 0.1 and "lazy-operand" not in variant and not any(
+        if rng.random() < 0.08 and vals == "int" and m is None and "format-U" not in variant:
+            # operand identity in the random stream: the second operand IS the first one
+            pairs = [(pa, pa) if rng.random() < 0.5 and isinstance(pa, list) else (pa, pb) for pa, pb in pairs]
+            variant.append("shared-objects")
+        if rng.random() < 0.1 and "lazy-operand" not in variant and "shared-objects" not in variant and not any(
                 isinstance(o, dict) and o.get("how") == "active" for pr in pairs for o in pr):
             variant.append("tensor-owned")
         sizes = rng.choice(list(compositions(k)))
@@ -470,7 +494,7 @@ def gen(seed, tier):
     yield from gen_swaps_depth1(tier)
     yield from gen_swaps_widened(tier)
     rng = random.Random(seed)
-    yield from gen_and_random(rng, 3200 if tier == "quick" else 120000)
+    yield from gen_and_random(rng, 3200 if tier == "quick" else 100000)
     yield from gen_swaps_random(rng, 2400 if tier == "quick" else 80000)
 
 
@@ -566,8 +590,21 @@ def _owned(lf, dflt, vals, fmt=None, shape=None):
     return t.getRoot()
 
 
-def build_operand(spec, dflt, vals, owned=False):
-    """a real operand of `a & b` from its spec (public constructors / operators only)"""
+def build_operand(spec, dflt, vals, owned=False, shared=None):
+    """a real operand of `a & b` from its spec (public constructors / operators only).
+    `shared`: a dict; leaf fibers with the same spec are then ONE Fiber object (operand
+    identity: `a & a`, `(a & b) & a`, a fiber against a lazy view of itself)."""
+    if shared is not None and isinstance(spec, list):
+        key = json.dumps(spec)
+        if key not in shared:
+            shared[key] = build_operand(spec, dflt, vals, owned)
+        return shared[key]
+    if shared is not None and isinstance(spec, dict) and "lazy" in spec:
+        x = build_operand(spec["x"], dflt, vals, owned, shared)
+        y = build_operand(spec["y"], dflt, vals, owned, shared)
+        z = (x & y) if spec["lazy"] == "and" else (x - y)
+        z.getRankAttrs().setId("K")
+        return z
     if owned and isinstance(spec, list):
         return _owned(spec, dflt, vals)
     if owned and "u" in spec and spec["how"] in ("estimated", "declared"):
@@ -613,6 +650,7 @@ def run_and(case):
             j += 1
     case["groups"] = groups
     built = {}
+    shared_of = {}
     del _keep[:]
 
     def operands(idx):
@@ -627,12 +665,14 @@ def run_and(case):
         if key not in built:
             ow = "tensor-owned" in variant
             w = windows[idx]
+            sh = {} if "shared-objects" in variant else None
+            shared_of[idx] = sh if sh is not None else {}
             if w is not None and w[2] == "iterActive":
                 # the lazy result inherits the active range of its first operand
                 a = _leaf_fiber(pairs[idx][0], dflt, vals, active_range=(w[0], w[1]))
             else:
-                a = build_operand(pairs[idx][0], dflt, vals, ow)
-            built[key] = (a, build_operand(pairs[idx][1], dflt, vals, ow))
+                a = build_operand(pairs[idx][0], dflt, vals, ow, sh)
+            built[key] = (a, build_operand(pairs[idx][1], dflt, vals, ow, sh))
         return built[key]
 
     results = {}
@@ -645,6 +685,13 @@ def run_and(case):
                 results[key] = Fiber.intersection(a, b, style="leader-follower")
             elif "intersection-two-finger" in variant:
                 results[key] = Fiber.intersection(a, b)
+            elif "nary" in variant and isinstance(pairs[idx][0], dict) and pairs[idx][0].get("lazy") == "and" \
+                    and isinstance(pairs[idx][1], list):
+                # Fiber.intersection(x, y, z) = (x & y) & z: the traced intersection is the outer one
+                sh = shared_of.get(idx, {})
+                x = build_operand(pairs[idx][0]["x"], dflt, vals, False, sh)
+                y = build_operand(pairs[idx][0]["y"], dflt, vals, False, sh)
+                results[key] = Fiber.intersection(x, y, build_operand(pairs[idx][1], dflt, vals, False, sh))
             else:
                 results[key] = a & b
         return results[key]
